@@ -75,7 +75,7 @@ def scan_assumptions(text, mp):
     return out
 
 
-def run_v_unit(name, tier='quick', seed=0, extra_args=None, _inline=None, _consts=None):
+def run_v_unit(name, tier='quick', seed=0, extra_args=None, _inline=None, _consts=None, _round=0):
     """Extract, splice, verify one unit. Returns a result dict; never raises for verification outcomes."""
     tmpl = os.path.join(CONTRACTS, name + '.vt')
     os.makedirs(BUILD, exist_ok=True)
@@ -144,8 +144,10 @@ def run_v_unit(name, tier='quick', seed=0, extra_args=None, _inline=None, _const
         mo = re.match(r'cannot find value `([A-Z][A-Z0-9_]*)` in this scope', d['message'])
         if mo:
             unknown_c.add(mo.group(1))
-    if (unknown or unknown_c) and _inline is None and _consts is None:
-        return run_v_unit(name, tier, seed, extra_args, _inline=sorted(unknown), _consts=sorted(unknown_c))
+    # up to three rounds: a pulled helper may itself need a constant or another helper
+    have_i, have_c = set(_inline or []), set(_consts or [])
+    if ((unknown - have_i) or (unknown_c - have_c)) and _round < 3:
+        return run_v_unit(name, tier, seed, extra_args, _inline=sorted(unknown | have_i), _consts=sorted(unknown_c | have_c), _round=_round + 1)
     if j is None or 'verification-results' not in j:
         res['status'] = 'undecided'
         msgs = [d['message'] for d in diags][:5]
@@ -223,6 +225,15 @@ def run_v_unit(name, tier='quick', seed=0, extra_args=None, _inline=None, _const
         res['status'] = 'undecided'
         res['undecided'].append(f"vacuity guard: only {res['verified']} verification units, floor is {meta['min_verified']}")
         return res
+    pulled = [r for r in meta['rewrites'] if r.get('rule') == 'R13' and 'not inlinable' in r.get('what', '')]
+    if res['failures'] and pulled:
+        # R13d: a helper the unit did not know was pulled in WITHOUT a contract. If everything verifies, the refactor is harmless and the unit is decided.
+        # If something fails, the missing contract may be the reason (a caller cannot use what the helper establishes, the helper is checked for arguments
+        # its callers never pass): not a verdict on the code — undecided, and the stand-in behind the unit decides
+        names = sorted({r['fn'] for r in pulled})
+        res['undecided'].append(f"helper function(s) {names} introduced by a refactor were pulled into the unit without a contract; {len(res['failures'])} obligation(s) "
+                                f"do not verify with them as they stand (first: {res['failures'][0]['obligation'][:140]}) — not a verdict")
+        res['failures'] = []
     if res['failures']:
         res['status'] = 'violation'
     elif res['undecided']:
